@@ -144,6 +144,18 @@ func runC08(tier string, seed uint64) {
 						}
 					}
 				}
+				// keys well inside the limit whose characters take two and three bytes (segments of 230 and 240
+				// bytes in 115 and 80 characters): valid uploads, accepted everywhere
+				if key == "new" {
+					for _, lk := range []string{strings.Repeat("\xc3\xa9", 115), "w/" + strings.Repeat("\xe6\x97\xa5", 80)} {
+						if r := s.Put(b, lk, []byte("long multi-byte key"), []KV{{"X-Amz-Meta-L", "1"}}); r.Status == 200 {
+							s.Get(b, lk, "")
+							s.List(ListReq{Bucket: b, MaxKeys: -1})
+							s.Delete(b, lk)
+						}
+						snapshot()
+					}
+				}
 				// a surplus that consists of line terminators is a surplus like any other (a text body whose
 				// declared length leaves its last newline out)
 				restore := func(r Resp) {
